@@ -52,6 +52,18 @@ JCleanLong(r) ==
                                                        /\ Len(BoundsOf(r.cleanws)) = nw>>
       >>, <<>>, FALSE, Len(r.ws) > 16384)
 
+\* whitespace corruption of a very long text with one probability 0: tends / oends = for every whitespace run of the text /
+\* the output, the number of non-whitespace characters in front of it.  No deletion: every word end of the text is still a
+\* word end of the output; no insertion: the output has no other word ends than the text.
+JCorruptLong(r) ==
+    LET T == {r.tends[k] : k \in 1..Len(r.tends)}
+        O == {r.oends[k] : k \in 1..Len(r.oends)}
+    IN Verdict(<<
+        <<"C14:same_non_whitespace_characters", r.same_content>>,
+        <<"C14:no_deletion_with_probability_zero", r.dw = "zero" => T \subseteq O>>,
+        <<"C14:no_insertion_with_probability_zero", r.iw = "zero" => O \subseteq T>>
+      >>, <<>>, FALSE, r.n > 65536)
+
 JPair(r) ==
     IF ~(NoMixed(r.fv) /\ NoMixed(r.tv) /\ IsClean(r.fv) /\ IsClean(r.tv) /\ Content(r.fv) = Content(r.tv)) THEN Skip
     ELSE Verdict(<<
@@ -105,6 +117,7 @@ Judge(r) ==
     IF r.st # "ok" THEN [why |-> <<r.st>>, drift |-> <<>>, skip |-> FALSE, nt |-> FALSE]
     ELSE CASE r.kind = "clean" -> JClean(r)
            [] r.kind = "cleanlong" -> JCleanLong(r)
+           [] r.kind = "corruptlong" -> JCorruptLong(r)
            [] r.kind = "pair" -> JPair(r)
            [] r.kind = "repair" -> JRepair(r)
            [] OTHER -> JCorrupt(r)
